@@ -552,6 +552,98 @@ static void case_big(const args_t *a, long c, rng_t *r)
 	free(buf); unlink(path);
 }
 
+/* ------------------------------------------------------------------ blocks whose size sits within a few bytes of the builder's buffer capacity (65536 * 2^k):
+ * the restart array and count are appended into whatever room is left, so an allocation slip of a few bytes only shows at these sizes (ASan watches the buffer) */
+static size_t edge_write_index_file(const char *path, size_t nblocks, size_t last_key_len, uint64_t *index_entry_bytes, uint32_t *index_restarts)
+{
+	unlink(path);
+	struct mtbl_writer_options *wo = mtbl_writer_options_init();
+	mtbl_writer_options_set_compression(wo, MTBL_COMPRESSION_NONE);
+	mtbl_writer_options_set_block_size(wo, 1024);
+	struct mtbl_writer *w = mtbl_writer_init(path, wo);
+	mtbl_writer_options_destroy(&wo);
+	uint8_t val[1000]; memset(val, 'v', sizeof val);
+	for (size_t i = 0; i < nblocks; i++) { char k[16]; int lk = snprintf(k, sizeof k, "%07zu", i); if (mtbl_writer_add(w, (uint8_t *)k, lk, val, sizeof val) != mtbl_res_success) viol("C01/edge-add-refused", "add refused"); }
+	uint8_t lastk[256]; memset(lastk, 'x', sizeof lastk); lastk[0] = '9';
+	if (mtbl_writer_add(w, lastk, last_key_len, val, sizeof val) != mtbl_res_success) viol("C01/edge-add-refused", "add refused");
+	mtbl_writer_destroy(&w);
+	size_t len; uint8_t *data = map_file(path, &len); rd_file_t f; size_t n = 0;
+	if (data && rd_parse(data, len, 0, &f) == 0) { *index_entry_bytes = f.index.entries_end; *index_restarts = f.index.n_restarts; n = f.n_blocks; rd_free(&f); }
+	else { viol("C09/undecodable", "edge: the independent decoder rejects the file"); *index_entry_bytes = 0; *index_restarts = 0; }
+	if (data) unmap_file(data, len);
+	return n;
+}
+static void edge_readback(const char *path, size_t want_entries, const char *what)
+{
+	struct mtbl_reader *rd = mtbl_reader_init(path, NULL);
+	if (!rd) { viol("C01/reader-rejects-written-file", "edge (%s): reader NULL", what); return; }
+	struct mtbl_iter *it = mtbl_source_iter(mtbl_reader_source(rd));
+	const uint8_t *k, *v; size_t lk, lv, n = 0;
+	while (mtbl_iter_next(it, &k, &lk, &v, &lv) == mtbl_res_success) n++;
+	if (n != want_entries) viol("C01/missing-entries", "edge (%s): iteration returned %zu of %zu entries", what, n, want_entries);
+	mtbl_iter_destroy(&it); mtbl_reader_destroy(&rd);
+}
+static void case_edge(const args_t *a, long c, rng_t *r)
+{
+	(void)r;
+	char path[4096]; snprintf(path, sizeof path, "%s/edge-%ld.mtbl", a->workdir, c);
+	if (c < 64) {
+		/* data block of one entry whose entry area is capacity - f bytes, f = 0..15 (one restart point: 8 more bytes are appended) */
+		size_t cap = (size_t)65536 << (c / 16), f = (size_t)(c % 16);
+		size_t L = cap - f - 6;                          /* entry = 1 + 1 + 3 (value length varint) + 1 key byte + L */
+		if (L >= (1u << 21)) L -= 1;                     /* 4-byte varint from 2 MiB on (not reached with cap <= 512 KiB) */
+		unlink(path);
+		struct mtbl_writer_options *wo = mtbl_writer_options_init();
+		mtbl_writer_options_set_compression(wo, MTBL_COMPRESSION_NONE);
+		mtbl_writer_options_set_block_size(wo, 1024);
+		struct mtbl_writer *w = mtbl_writer_init(path, wo);
+		mtbl_writer_options_destroy(&wo);
+		uint8_t *val = xmalloc(L); for (size_t i = 0; i < L; i++) val[i] = (uint8_t)(i * 13);
+		mtbl_writer_add(w, (const uint8_t *)"a", 1, (const uint8_t *)"head", 4);
+		if (mtbl_writer_add(w, (const uint8_t *)"k", 1, val, L) != mtbl_res_success) viol("C01/edge-add-refused", "add refused");
+		mtbl_writer_add(w, (const uint8_t *)"z", 1, (const uint8_t *)"tail", 4);
+		mtbl_writer_destroy(&w);
+		free(val);
+		size_t len; uint8_t *data = map_file(path, &len); rd_file_t fl;
+		if (data && rd_parse(data, len, 0, &fl) == 0) {
+			if (fl.n_blocks != 3 || fl.blocks[1].entries_end != cap - f) inconclusive("edge: expected a middle block with an entry area of %zu bytes, found %zu blocks / %" PRIu64, cap - f, fl.n_blocks, fl.n_blocks > 1 ? fl.blocks[1].entries_end : 0);
+			else statf(1, "edge.data_block.free_bytes_before_restart_array.%zu", f);
+			rd_free(&fl);
+		} else viol("C09/undecodable", "edge: the independent decoder rejects the file");
+		if (data) unmap_file(data, len);
+		edge_readback(path, 3, "data block");
+		STAT("edge.data_block_cases");
+		if (want_sample()) sample("edge: single-entry data block with an entry area of %zu bytes = builder capacity %zu - %zu", cap - f, cap, f);
+	} else {
+		/* index block: one-entry data blocks until the index entry area is just below 131072; the last key's length then moves it byte by byte across
+		   capacity - (4 * restarts + 4) */
+		const size_t cap = 131072;
+		uint64_t u0, u1; uint32_t nr;
+		size_t j = (size_t)(c - 64);                    /* 0..39: where the entry area ends relative to the room the restart array needs */
+		size_t M = 7000; long need = 0, target = 0; double per = 12.0;
+		for (int round = 0; round < 8; round++) {
+			edge_write_index_file(path, M, 10, &u0, &nr);
+			if (!u0) return;
+			target = (long)cap - (long)(4 * (nr + 1) + 4) - 12 + (long)j;       /* entry area aimed at: from 12 below the last size that fits to 27 above */
+			need = target - (long)u0;                   /* bytes to add through the last key (its index key is the key itself: nothing follows it) */
+			if (need >= 0 && need <= 100) break;
+			long dm = (long)((double)(need - 50) / per);
+			if (dm == 0) dm = need < 0 ? -1 : 1;
+			M = (size_t)((long)M + dm);
+		}
+		if (need < 0 || need > 100) { inconclusive("edge: index calibration off by %ld bytes", need); return; }
+		size_t nb = edge_write_index_file(path, M, (size_t)(10 + need), &u1, &nr);
+		statf(1, "edge.index_block.entry_area_minus_capacity.%ld", (long)u1 - (long)cap);
+		if ((long)u1 != target) STAT("edge.index_block.target_missed");
+		edge_readback(path, M + 1, "index block");
+		(void)nb;
+		STAT("edge.index_block_cases");
+		if (want_sample()) sample("edge: %zu one-entry blocks, index entry area %" PRIu64 " bytes with %u restart points, builder capacity %zu", M + 1, u1, nr, cap);
+	}
+	unlink(path);
+	case_hash((uint64_t)c * 7919);
+}
+
 /* ------------------------------------------------------------------ one writer-made data block around the 2^32 boundary (thorough, -O2 build) */
 static void case_bigblock(const args_t *a, long c, rng_t *r)
 {
@@ -670,6 +762,7 @@ int main(int argc, char **argv)
 	else if (!strcmp(a.sub, "c10")) f = case_c10;
 	else if (!strcmp(a.sub, "big")) f = case_big;
 	else if (!strcmp(a.sub, "bigblock")) f = case_bigblock;
+	else if (!strcmp(a.sub, "edge")) f = case_edge;
 	else if (!strcmp(a.sub, "bigvalue")) f = case_bigvalue;
 	else return 98;
 	return run_cases(&a, f);
